@@ -164,16 +164,27 @@ class ResultSet(dict[str, dict[Path, list[Result]]]):
         return list(self.keys())
 
     def __or__(self, other):
-        result = ResultSet(super().__or__(other))
-        for k in self.keys() | other.keys():
-            result[k] = list_dict_or(self[k], other[k])
+        result = type(self)()
+        for k in _ordered_union(self, other):
+            result[k] = list_dict_or(self.get(k, {}), other.get(k, {}))
         return result
+
+    def __ior__(self, other):
+        merged = self | other
+        self.clear()
+        self.update(merged)
+        return self
 
 
 def list_dict_or(
     dictionary: dict[Any, list[Any]], other: dict[Any, list[Any]]
 ) -> dict[Path, list[Any]]:
-    result_dict = other | dictionary
-    for k in other.keys() | dictionary.keys():
-        result_dict[k] = dictionary[k] + other[k]
-    return result_dict
+    return {
+        k: dictionary.get(k, []) + other.get(k, [])
+        for k in _ordered_union(dictionary, other)
+    }
+
+
+def _ordered_union(first: dict, second: dict) -> list:
+    """Keys of both dicts, each once, in order of first appearance."""
+    return list(dict.fromkeys([*first.keys(), *second.keys()]))
